@@ -46,6 +46,7 @@ theorem valStr_strVal (cs : List Char) : valStr (cs.foldr (fun c acc => .cons (.
   induction x with
   | lit s => simp [FX.toVal, FX.ofVal, strVal, valStr_strVal]
   | ofU64 u => simp [FX.toVal, FX.ofVal]
+  | ofBits b => simp [FX.toVal, FX.ofVal]
   | ofI64 i => simp [FX.toVal, FX.ofVal]
   | neg a ih => simp [FX.toVal, FX.ofVal, ih]
   | add a b iha ihb => simp [FX.toVal, FX.ofVal, iha, ihb]
@@ -139,6 +140,15 @@ structure FloatFacts (fe : FEval) (ft : FT) : Prop where
   geom : ∀ b : Nat, b ≤ 64 → ∀ w : UInt64, w < thrNever →
     (fe.toU64 (geomfx w (biasPfx (Int64.ofNat b)))).toNat < 2 ^ 32 ∧
     min (fe.toU64 (geomfx w (biasPfx (Int64.ofNat b)))).toNat 65 + 1 = geomN (ft.geom b) w
+
+/-- the same facts about `flipBiasedCoin` when the probability arrives as a float64 *value* (floats.go
+    hands over the constants 0, 1 and 0.5 in a variable): bit patterns 0, 0x3FF0…0, 0x3FE0…0 -/
+structure FloatFactsBits (fe : FEval) (ft : FT) : Prop where
+  coin_assert : ∀ p : UInt64, p = 0 ∨ p = 0x3FF0000000000000 ∨ p = 0x3FE0000000000000 →
+    fe.le (.lit "0") (.ofBits p) = true ∧ fe.le (.ofBits p) (.lit "1") = true
+  coin0 : ∀ w : UInt64, w < thrNever → fe.le (.sub (.lit "1") (.ofBits 0)) (f01 w) = false
+  coin1 : ∀ w : UInt64, w < thrNever → fe.le (.sub (.lit "1") (.ofBits 0x3FF0000000000000)) (f01 w) = true
+  coinHalf : ∀ w : UInt64, w < thrNever → fe.le (.sub (.lit "1") (.ofBits 0x3FE0000000000000)) (f01 w) = decide (ft.coinHalf ≤ w)
 
 /-! ### `flipBiasedCoin` -/
 
@@ -404,8 +414,11 @@ def feOf (ft : FT) : FEval where
     | _ => 0
   le a b := match a, b with
     | .sub _ (.lit p), .mul (.ofU64 w) _ => if p = "0" then false else if p = "1" then true else decide (ft.coinHalf ≤ w)
+    | .sub _ (.ofBits p), .mul (.ofU64 w) _ =>
+        if p = 0 then false else if p = 0x3FF0000000000000 then true else decide (ft.coinHalf ≤ w)
     | _, _ => true
   lt _ _ := true
+  f64to32 _ := 0
 
 theorem floatFacts_feOf (ft : FT) (hlen : ∀ b : Nat, b ≤ 64 → (ft.geom b).length ≤ 65) : FloatFacts (feOf ft) ft where
   coin_assert := by
@@ -431,5 +444,13 @@ theorem floatFacts_feOf (ft : FT) (hlen : ∀ b : Nat, b ≤ 64 → (ft.geom b).
       rw [UInt64.toNat_ofNat']; exact Nat.mod_eq_of_lt (by omega)
     rw [this]
     omega
+
+theorem floatFactsBits_feOf (ft : FT) : FloatFactsBits (feOf ft) ft where
+  coin_assert := by
+    intro p hp
+    rcases hp with rfl | rfl | rfl <;> exact ⟨rfl, rfl⟩
+  coin0 := fun w _ => rfl
+  coin1 := fun w _ => rfl
+  coinHalf := fun w _ => rfl
 
 end Rapid
